@@ -742,6 +742,10 @@ pub fn gen_outage_scenario(property: &str, seed: u64) -> Scenario {
             Op::WaitNodeDown { max: 400 },
             Op::NodeUp,
         ]
+    } else if r.chance(1, 4) {
+        // the node comes back behind the tower's tip (it lost its last blocks and has not caught up yet): it answers
+        // every call, its block count is lower than what the tower has seen, and the tower must resume all the same
+        vec![Op::WaitNodeDown { max: 400 }, Op::NodeUpBehind { k: r.range(1, 3) as u32 }]
     } else {
         vec![Op::WaitNodeDown { max: 400 }, Op::NodeUp]
     };
